@@ -430,8 +430,46 @@ func TestC17(t *testing.T) {
 		return c17St{Filter: rapid.SampledFrom(c17Binary).Draw(t, "f"), B: &b, Wrap: rapid.IntRange(0, 3).Draw(t, "wrap") == 0}
 	})
 	col.Rapid(grid.Sub, env.PerShard(env.Pick(200000, 2000000)), func(t *rapid.T) {
-		steps := rapid.SliceOfN(genStep, 2, 6).Draw(t, "steps")
-		c := &c17Case{Filter: steps[0].Filter, A: genOp.Draw(t, "a"), B: steps[0].B, Chain: steps[1:]}
+		// The chain is drawn step by step with the reference model following along: a step that would
+		// leave the part of the domain where the expected value is fixed (an intermediate value that no
+		// float64 holds exactly, an inexact integer division in mid-chain, a remainder of negative
+		// operands, a nil operand) is redrawn up to three times, so that most chains are judged to
+		// their end; one chain in five is left as drawn.
+		a := genOp.Draw(t, "a")
+		n := rapid.IntRange(2, 6).Draw(t, "nsteps")
+		steer := rapid.IntRange(0, 4).Draw(t, "steer") > 0
+		cur, isNum, _ := a.rat(true)
+		var steps []c17St
+		for i := 0; i < n; i++ {
+			st := genStep.Draw(t, "step")
+			for try := 0; steer && isNum && cur != nil && try < 3; try++ {
+				exp := c17Model(st.Filter, cur, st.B)
+				good := !exp.unspecified
+				if good && exp.val != nil {
+					_, good = exactF64(exp.val)
+				}
+				if good && exp.within != nil && !exp.within.IsInt() && i < n-1 {
+					good = false
+				}
+				if good {
+					break
+				}
+				st = genStep.Draw(t, "step-again")
+			}
+			steps = append(steps, st)
+			if isNum && cur != nil {
+				exp := c17Model(st.Filter, cur, st.B)
+				switch {
+				case exp.val != nil:
+					cur = exp.val
+				case exp.within != nil && exp.within.IsInt():
+					cur = exp.within
+				default:
+					cur = nil // an error or an open question: the rest of the chain is drawn blind
+				}
+			}
+		}
+		c := &c17Case{Filter: steps[0].Filter, A: a, B: steps[0].B, Chain: steps[1:]}
 		grid.Sub.Class(fmt.Sprintf("chain-len-%d", len(steps)))
 		if v := grid.Run(c); v != nil {
 			t.Fatalf("%s", v.Message)
